@@ -146,3 +146,130 @@ Proof.
     rewrite <- Es. rewrite load_store_bytes_nil by exact Ha. rewrite store_bytes_length, Nat.eqb_refl. reflexivity.
   - reflexivity.
 Qed.
+
+(* ---------- what an accepted string looks like: canonical form up to ignored bytes ---------- *)
+Lemma AdssFacts_chunks_S f bs : Shamir.chunks (S f) bs =
+  if (24 <=? length bs)%nat then firstn 24 bs :: Shamir.chunks f (skipn 24 bs) else [].
+Proof. reflexivity. Qed.
+Lemma skipn_add {A} : forall b a (l : list A), skipn a (skipn b l) = skipn (b + a) l.
+Proof.
+  induction b as [|b IH]; intros a l; [reflexivity|]. destruct l as [|x l]; [rewrite !skipn_nil; reflexivity|].
+  cbn [skipn Nat.add]. apply IH.
+Qed.
+Lemma load_bytes_inv bs c : load_bytes bs = Ok c -> wf bs ->
+  bs = store_bytes c ++ skipn (4 + length c) bs /\ fits32 c.
+Proof.
+  intros H Hwf. destruct (load_bytes_ok bs c H) as (Hlen & Hc & Hhdr).
+  assert (H4 : length (firstn 4 bs) = 4%nat) by (apply firstn_length_le; lia).
+  assert (Hfit : fits32 c).
+  { unfold fits32. rewrite <- Hhdr. pose proof (le_of_bytes_bound (firstn 4 bs) (wf_firstn 4 bs Hwf)) as Hb.
+    rewrite H4 in Hb. exact Hb. }
+  split; [|exact Hfit].
+  unfold store_bytes. rewrite N.mod_small by exact Hfit. rewrite <- Hhdr.
+  unfold le32. rewrite <- H4 at 1. rewrite bytes_of_le_of_bytes by (apply wf_firstn; exact Hwf).
+  rewrite Hc at 1. rewrite <- app_assoc.
+  rewrite <- (firstn_skipn 4 bs) at 1. f_equal.
+  rewrite <- (firstn_skipn (length c) (skipn 4 bs)) at 1. f_equal.
+  apply skipn_add.
+Qed.
+
+Lemma decode_chunks_prefix : forall fuel l ys, (length l <= fuel)%nat -> wf l ->
+  decode_all (Shamir.chunks fuel l) = Some ys ->
+  exists tail, l = flat_map to_repr ys ++ tail /\ (length tail < 24)%nat.
+Proof.
+  induction fuel as [|fuel IH]; intros l ys Hf Hwf H.
+  - destruct l; [|cbn in Hf; lia]. cbn in H. injection H as <-. exists []. split; [reflexivity|cbn; lia].
+  - rewrite AdssFacts_chunks_S in H. destruct (24 <=? length l)%nat eqn:E.
+    + apply Nat.leb_le in E. cbn [decode_all] in H.
+      destruct (from_repr (firstn 24 l)) as [y|] eqn:Ey; [|discriminate].
+      destruct (decode_all (Shamir.chunks fuel (skipn 24 l))) as [ys'|] eqn:Er; [|discriminate].
+      injection H as <-.
+      destruct (IH (skipn 24 l) ys') as [tail [Et Hl]]; [rewrite skipn_length; lia|apply wf_skipn; exact Hwf|exact Er|].
+      exists tail. split; [|exact Hl]. cbn [flat_map]. rewrite <- app_assoc, <- Et.
+      rewrite (from_repr_unique _ _ (wf_firstn 24 l Hwf) Ey). symmetry. apply firstn_skipn.
+    + apply Nat.leb_gt in E. cbn in H. injection H as <-. exists l. split; [reflexivity|exact E].
+Qed.
+
+(* a Shamir share is accepted only from its own encoding followed by fewer than 24 ignored bytes *)
+Theorem share_from_bytes_canon bs s : wf bs -> share_from_bytes bs = Ok s ->
+  exists tail, bs = share_to_bytes s ++ tail /\ (length tail < 24)%nat.
+Proof.
+  intros Hwf H. unfold share_from_bytes in H. rewrite fel in H.
+  destruct (length bs <? 24)%nat eqn:E; [discriminate|]. apply Nat.ltb_ge in E.
+  rewrite slice_to_ok in H by exact E. cbn [obind] in H.
+  destruct (from_repr (firstn 24 bs)) as [x|] eqn:Ex; [|discriminate].
+  rewrite slice_from_ok in H by exact E. cbn [obind] in H.
+  destruct (decode_all (chunks24 (skipn 24 bs))) as [ys|] eqn:Ey; [|discriminate].
+  apply Ok_inj in H. subst s. unfold share_to_bytes. cbn [sx sy].
+  destruct (decode_chunks_prefix _ _ ys (Nat.le_refl _) (wf_skipn 24 bs Hwf) Ey) as [tail [Et Hl]].
+  exists tail. split; [|exact Hl]. rewrite <- app_assoc, <- Et.
+  rewrite (from_repr_unique _ _ (wf_firstn 24 bs Hwf) Ex). symmetry. apply firstn_skipn.
+Qed.
+
+(* an adss share is accepted only from  threshold | len,S' | len,C | len,D | J[64]  where S' is the Shamir
+   share's encoding followed by fewer than 24 ignored bytes: re-encoding drops exactly those *)
+Theorem ashare_from_bytes_canon bs s : wf bs -> ashare_from_bytes bs = Ok s ->
+  exists tail, (length tail < 24)%nat /\ length (aJ s) = Params.mac_length /\
+    bs = le32 (aA s) ++ store_bytes (share_to_bytes (aS s) ++ tail) ++ store_bytes (aC s) ++ store_bytes (aD s) ++ aJ s.
+Proof.
+  intros Hwf H. unfold ashare_from_bytes in H. change Params.access_structure_length with 4%nat in H.
+  destruct (length bs <? 4)%nat eqn:E4; [discriminate|]. apply Nat.ltb_ge in E4.
+  rewrite slice_to_ok in H by exact E4. cbn [obind] in H.
+  destruct (load_u32 (firstn 4 bs)) as [a|] eqn:Ea; [|discriminate].
+  rewrite slice_from_ok in H by exact E4. cbn [obind] in H.
+  destruct (load_bytes (skipn 4 bs)) as [sb| |] eqn:E1; cbn [obind] in H; try discriminate.
+  destruct (load_bytes_inv _ _ E1 (wf_skipn 4 bs Hwf)) as [I1 F1]. destruct (load_bytes_ok _ _ E1) as (L1 & _).
+  rewrite slice_from_ok in H by exact L1. cbn [obind] in H.
+  set (r1 := skipn (4 + length sb) (skipn 4 bs)) in *.
+  assert (Hw1 : wf r1) by (apply wf_skipn, wf_skipn; exact Hwf).
+  destruct (load_bytes r1) as [c| |] eqn:E2; cbn [obind] in H; try discriminate.
+  destruct (load_bytes_inv _ _ E2 Hw1) as [I2 F2]. destruct (load_bytes_ok _ _ E2) as (L2 & _).
+  rewrite slice_from_ok in H by exact L2. cbn [obind] in H.
+  set (r2 := skipn (4 + length c) r1) in *.
+  assert (Hw2 : wf r2) by (apply wf_skipn; exact Hw1).
+  destruct (load_bytes r2) as [d| |] eqn:E3; cbn [obind] in H; try discriminate.
+  destruct (load_bytes_inv _ _ E3 Hw2) as [I3 F3]. destruct (load_bytes_ok _ _ E3) as (L3 & _).
+  rewrite slice_from_ok in H by exact L3. cbn [obind] in H.
+  set (r3 := skipn (4 + length d) r2) in *.
+  destruct (Nat.eqb (length r3) Params.mac_length) eqn:EJ; [|discriminate]. apply Nat.eqb_eq in EJ.
+  destruct (share_from_bytes sb) as [sh| |] eqn:E5; cbn [obind] in H; try discriminate.
+  apply Ok_inj in H. subst s. cbn [aA aS aC aD aJ].
+  assert (Hwsb : wf sb).
+  { destruct (load_bytes_ok _ _ E1) as (_ & Hsb & _). rewrite Hsb. apply wf_firstn, wf_skipn, wf_skipn. exact Hwf. }
+  destruct (share_from_bytes_canon sb sh Hwsb E5) as [tail [Esb Hl]].
+  exists tail. split; [exact Hl|]. split; [exact EJ|].
+  rewrite <- Esb. rewrite <- I3 at 1. rewrite <- I2. rewrite <- I1.
+  (* the threshold *)
+  unfold load_u32 in Ea. rewrite firstn_length_le in Ea by exact E4. cbn [Nat.eqb] in Ea.
+  assert (Ea' : le_of_bytes (firstn 4 bs) = a) by congruence. rewrite <- Ea'. clear Ea Ea'.
+  assert (H4 : length (firstn 4 bs) = 4%nat) by (apply firstn_length_le; exact E4).
+  unfold le32. rewrite <- H4 at 1. rewrite bytes_of_le_of_bytes by (apply wf_firstn; exact Hwf).
+  symmetry. apply firstn_skipn.
+Qed.
+
+(* a report is accepted only from  len,ct | len,share' | len,tag | ignored bytes *)
+Theorem message_from_bytes_canon bs m : wf bs -> message_from_bytes bs = Ok m ->
+  exists tail trailing, (length tail < 24)%nat /\
+    bs = store_bytes (mCt m)
+         ++ store_bytes (le32 (aA (mShare m)) ++ store_bytes (share_to_bytes (aS (mShare m)) ++ tail)
+                         ++ store_bytes (aC (mShare m)) ++ store_bytes (aD (mShare m)) ++ aJ (mShare m))
+         ++ store_bytes (mTag m) ++ trailing.
+Proof.
+  intros Hwf H. unfold message_from_bytes in H.
+  destruct (load_bytes bs) as [cb| |] eqn:E1; cbn [obind] in H; try discriminate.
+  destruct (load_bytes_inv _ _ E1 Hwf) as [I1 _]. destruct (load_bytes_ok _ _ E1) as (L1 & _).
+  rewrite slice_from_ok in H by exact L1. cbn [obind] in H.
+  set (r1 := skipn (4 + length cb) bs) in *. assert (Hw1 : wf r1) by (apply wf_skipn; exact Hwf).
+  destruct (load_bytes r1) as [sb| |] eqn:E2; cbn [obind] in H; try discriminate.
+  destruct (load_bytes_inv _ _ E2 Hw1) as [I2 _]. destruct (load_bytes_ok _ _ E2) as (L2 & Hsb & _).
+  destruct (ashare_from_bytes sb) as [sh| |] eqn:E3; cbn [obind] in H; try discriminate.
+  rewrite slice_from_ok in H by exact L2. cbn [obind] in H.
+  set (r2 := skipn (4 + length sb) r1) in *. assert (Hw2 : wf r2) by (apply wf_skipn; exact Hw1).
+  destruct (load_bytes r2) as [tg| |] eqn:E4; cbn [obind] in H; try discriminate.
+  destruct (load_bytes_inv _ _ E4 Hw2) as [I4 _].
+  apply Ok_inj in H. subst m. cbn [mCt mShare mTag].
+  assert (Hwsb : wf sb) by (rewrite Hsb; apply wf_firstn, wf_skipn; exact Hw1).
+  destruct (ashare_from_bytes_canon sb sh Hwsb E3) as [tail [Hl [_ Esb]]].
+  exists tail, (skipn (4 + length tg) r2). split; [exact Hl|].
+  rewrite <- Esb, <- I4, <- I2. exact I1.
+Qed.
